@@ -382,6 +382,12 @@ class RNP:
         return a.copy()
 
     @staticmethod
+    def diagonal(a):
+        if a.ndim != 2:
+            raise Escape("rnp: diagonal of a non-matrix")
+        return RArr([a.data[i][i] for i in range(min(a.shape))], a.dtype)
+
+    @staticmethod
     def mean(a, axis=None):
         if axis != -2 or a.ndim < 2:
             raise Escape("rnp: mean over this axis")
